@@ -646,8 +646,28 @@ def c17_configs(tier):
     return cs
 
 
+def c17_extra(tier, rnd):
+    """aliases (re)bound by publishes that are themselves dropped: the server is configured to go on handling
+    QoS 0 after the connection was closed (handle_qos_after_disconnect), a publish handler closes the connection,
+    and the read buffer still holds a QoS 1 PUBLISH that binds an alias and QoS 0 publishes that use it"""
+    runs = []
+    pub = lambda **kw: dict({"t": "publish", "q": 0, "topic": "t", "plen": 1}, **kw)
+    for first in ("a", None):
+        for t2 in ("b", "a"):
+            cfg = dict(role="server", ver=5, gate_pub=0, max_qos=1, max_receive=16, max_topic_alias=2,
+                       handle_qos_after_disconnect=0)
+            cmds = [handshake("server", 5)]
+            if first:
+                cmds.append({"c": "in", "p": pub(topic=first, alias=1)})
+            cmds += [{"c": "arm", "o": "fclose"},
+                     {"c": "in", "pkts": [pub(topic="x"), pub(q=1, id=1, topic=t2, alias=1), pub(topic="", alias=1), pub(topic="", alias=1)]},
+                     {"c": "drain"}]
+            runs.append(dict(cfg=cfg, cmds=cmds, src="after_disconnect"))
+    return runs
+
+
 reg(dict(
-    name="alias", judge="ProtoJudge", configs=c17_configs, signature=inb_signature,
+    name="alias", judge="ProtoJudge", configs=c17_configs, signature=inb_signature, extra_runs=c17_extra,
     level={}, quota=700, quota_thorough=20000,
     rule="TLC enumerates every sequence (length <= 3 quick, <= 4 thorough) over 11 publish templates = topics "
          "{a, b, none} x aliases {none, 1, 2, 3 (above the advertised maximum 2)}: bind, rebind to the other topic, use, "
